@@ -11,7 +11,8 @@ From Coq Require Import List NArith.
 From PV Require Import Base.Bytes AVM.Syntax AVM.Machine Src.Expr Src.Denote
   Comp.Blocks Comp.Passes Comp.GraphSem Comp.SimCheck
   Proofs.LowerFrame Proofs.NormalizeSem Proofs.NormalizeGraph Proofs.IncomingProof
-  Proofs.NormalizeCorrect Proofs.NormalizeExamples.
+  Proofs.NormalizeCorrect Proofs.NormalizeExamples Proofs.LowerShape Proofs.NormalizeLowered.
+From PV Require Import Comp.Lower Comp.Compile.
 Import ListNotations.
 
 (* block.ops = prev.ops + block.ops: running a concatenation = running the parts in sequence; an
@@ -103,6 +104,31 @@ Theorem C01_add_incoming_normalize_correct :
     equiv_from env (g_blk g) s (g_blk g') s'.
 Proof. exact add_incoming_normalize_correct. Qed.
 Print Assumptions C01_add_incoming_normalize_correct.
+
+(* on LOWERED graphs no side condition on the graph is left: for every recipe e lowered as a whole
+   routine (empty graph, no continuation, no enclosing loop), addIncoming + NormalizeBlocks preserve
+   behaviour provided the recipe's start block is not a loop head — a syntactic condition
+   ([head_loop], Proofs/LowerShape.v) that holds of every root compile_one builds around a loop *)
+Theorem C01_lowered_normalize_correct :
+  forall (env : denv) (o : copts) (c : lctx) (e : expr) (s en : id) (g0 g' : graph) (s' : id),
+    l_brk c = None -> l_cont c = None ->
+    head_loop e = false ->
+    lower o c e None empty_graph = ((s, en), g0) ->
+    normalize (fst (add_incoming g0 s)) s = (g', s') ->
+    equiv_from env (g_blk g0) s (g_blk g') s'.
+Proof. exact lowered_normalize_correct. Qed.
+Print Assumptions C01_lowered_normalize_correct.
+
+(* what lowering guarantees (one induction over the recipe): well-formed, conditional blocks complete,
+   no incoming list written, and no edge into the start block unless the recipe is loop-headed *)
+Theorem C01_lower_root_shape :
+  forall (o : copts) (c : lctx) (e : expr) (s en : id) (g : graph),
+    l_brk c = None -> l_cont c = None ->
+    lower o c e None empty_graph = ((s, en), g) ->
+    wf g /\ cond_full g /\ (forall x, g_inc g x = []) /\
+    (head_loop e = false -> forall p, ~ In s (out_of g p)).
+Proof. exact lower_root_shape. Qed.
+Print Assumptions C01_lower_root_shape.
 
 (* non-vacuity: the hypotheses hold of a loop graph that the pass does rewrite *)
 Theorem C01_normalize_correct_nonvacuous :
